@@ -123,3 +123,92 @@ Section Todo.
       try (specialize (HD eq_refl); inversion HD; subst); solve_xt.
   Qed.
 End Todo.
+
+(* ------------------------------------------------------------------ facts used by the enclosing range (C16Hull.v)
+   P5: inside a block every range is dominated, at its start and at its end, by a non-empty range of the block;
+   P1s: the block of D starts at D or later; P4: some non-empty range of the block starts exactly at D. *)
+Definition nonempty_c (c : call) : Prop := xlt (c_s c) (c_e c) = true.
+Definition dominated (l : list call) (c : call) : Prop :=
+  (exists c', In c' l /\ nonempty_c c' /\ xle (c_s c') (c_s c) = true) /\
+  (exists c', In c' l /\ nonempty_c c' /\ xle (c_e c) (c_e c') = true).
+
+Ltac dom_self := split; (eexists; split; [left; reflexivity|]; unfold nonempty_c, fcall, xle, DAY; cbn; split; lia).
+
+Lemma vevent_P5 : forall ev, wf_vevent ev -> forall D c, In c (vevent_calls ev false D) -> dominated (vevent_calls ev false D) c.
+Proof.
+  intros ev Hwf D c H. destruct (vevent_block ev Hwf D) as (len & Hl & Heq). rewrite Heq in *.
+  destruct H as [<-|[]]. dom_self.
+Qed.
+
+Lemma vevent_P1s : forall ev, wf_vevent ev -> forall D c, In c (vevent_calls ev false D) -> xle (Fin D) (c_s c) = true.
+Proof.
+  intros ev Hwf D c H. destruct (vevent_block ev Hwf D) as (len & Hl & Heq). rewrite Heq in *.
+  destruct H as [<-|[]]. unfold fcall, xle. cbn. lia.
+Qed.
+
+Lemma vevent_P4 : forall ev, wf_vevent ev -> forall D, exists c, In c (vevent_calls ev false D) /\ c_s c = Fin D /\ nonempty_c c.
+Proof.
+  intros ev Hwf D. destruct (vevent_block ev Hwf D) as (len & Hl & Heq). rewrite Heq.
+  eexists. split; [left; reflexivity|]. unfold nonempty_c, fcall. cbn. split; [reflexivity|lia].
+Qed.
+
+Lemma vjournal_P5 : forall k D c, In c (vjournal_calls k false D) -> dominated (vjournal_calls k false D) c.
+Proof. intros k D c H. destruct k; cbn [vjournal_calls] in *; destruct H as [<-|[]]; dom_self. Qed.
+
+Lemma vjournal_P1s : forall k D c, In c (vjournal_calls k false D) -> xle (Fin D) (c_s c) = true.
+Proof. intros k D c H. destruct k; destruct H as [<-|[]]; unfold fcall, xle; cbn; lia. Qed.
+
+Lemma vjournal_P4 : forall k D, exists c, In c (vjournal_calls k false D) /\ c_s c = Fin D /\ nonempty_c c.
+Proof.
+  intros k D. destruct k; cbn [vjournal_calls]; (eexists; split; [left; reflexivity|]);
+    unfold nonempty_c, fcall, DAY; cbn; (split; [reflexivity|lia]).
+Qed.
+
+Section TodoHull.
+  Variable t : vtodo.
+  Hypothesis Hwf : wf_vtodo t.
+
+  Ltac todo_cases' :=
+    destruct Hwf as (_ & Hdur & Hdue & _ & Hcc);
+    unfold vtodo_calls in *;
+    destruct (td_dtstart t) as [ds|], (td_duration t) as [dd|], (td_due t) as [du|],
+             (td_completed t) as [co|], (td_created t) as [cr|];
+    try (destruct Hdur as (Hd0 & Hd1 & Hd2); try congruence).
+
+  Ltac pick n := match n with
+                 | 1%nat => left; reflexivity
+                 | 2%nat => right; left; reflexivity
+                 | 3%nat => right; right; left; reflexivity
+                 | 4%nat => right; right; right; left; reflexivity
+                 end.
+  Ltac exists_nth i := eexists; split; [pick i|]; unfold nonempty_c, fcall, xle; cbn; split; first [reflexivity|lia].
+  Ltac dom_side := first [exists_nth 1%nat|exists_nth 2%nat|exists_nth 3%nat|exists_nth 4%nat].
+  Ltac dom_auto := split; dom_side.
+
+  (* the DUE offset is DUE - DTSTART >= 0, the COMPLETED offset COMPLETED - CREATED >= 0 *)
+  Lemma vtodo_P5 : forall D c, In c (vtodo_calls t false D) -> dominated (vtodo_calls t false D) c.
+  Proof.
+    intros D c H. todo_cases'; cbn [In] in H; try contradiction;
+      repeat (destruct H as [<-|H]; [dom_auto|]); try contradiction.
+  Qed.
+
+  (* not of the F14 class: DURATION > 0 resp. DUE > DTSTART *)
+  Definition not_zero_len : Prop :=
+    td_duration t <> Some 0 /\ (td_duration t = None -> td_due t <> td_dtstart t).
+
+  Lemma vtodo_P1s : not_zero_len -> td_dtstart t <> None ->
+                    forall D c, In c (vtodo_calls t false D) -> xle (Fin D) (c_s c) = true.
+  Proof.
+    intros [Hz1 Hz2] Hs D c H. todo_cases'; try congruence; cbn [In] in H.
+    all: try (assert (dd <> 0) by congruence).
+    all: try (assert (du <> ds) by (specialize (Hz2 eq_refl); congruence)).
+    all: repeat (destruct H as [<-|H]; [unfold fcall, xle; cbn; lia|]); try destruct H.
+  Qed.
+
+  Lemma vtodo_P4 : td_dtstart t <> None -> forall D, exists c, In c (vtodo_calls t false D) /\ c_s c = Fin D /\ nonempty_c c.
+  Proof.
+    intros Hs D. todo_cases'; try congruence;
+      first [ eexists; split; [left; reflexivity|]; unfold nonempty_c, fcall; cbn; split; [reflexivity|lia]
+            | eexists; split; [right; left; reflexivity|]; unfold nonempty_c, fcall; cbn; split; [reflexivity|lia] ].
+  Qed.
+End TodoHull.
